@@ -373,9 +373,9 @@ fn main() {
         }
         std::process::exit(if v.is_empty() { 0 } else { 1 });
     }
-    let deadline = Instant::now() + Duration::from_secs(cli.tier.pick(25, 900));
+    let deadline = Instant::now() + Duration::from_secs(cli.tier.pick(150, 900));
     let (n, mut cap) = part_a(&rep, cli.tier, deadline);
-    let b = part_b::part_b(&rep, cli.tier, Instant::now() + Duration::from_secs(cli.tier.pick(30, 900)));
+    let b = part_b::part_b(&rep, cli.tier, Instant::now() + Duration::from_secs(cli.tier.pick(240, 900)));
     let nb = b["schedules"].as_u64().unwrap_or(0);
     if b["not_run_time_cap"].as_u64().unwrap_or(0) > 0 {
         cap = cap.or(Some(format!("part B: {} of {} schedules not run (wall-clock cap)", b["not_run_time_cap"], b["schedules_total"])));
